@@ -18,7 +18,7 @@ if [ -n "$demo" ]; then
   rm -f $WT/zz_demo_test.go
 fi
 git checkout -q -- . 2>/dev/null
-if ! git apply "$D/patch.diff"; then echo "PATCH-DOES-NOT-APPLY"; exit 3; fi
+if ! git apply "$D/patch.diff" 2>/dev/null && ! git apply -3 "$D/patch.diff"; then echo "PATCH-DOES-NOT-APPLY"; exit 3; fi; git reset -q 2>/dev/null
 if git diff --name-only | grep -q '_test.go'; then echo "PATCH-TOUCHES-TESTS"; fi
 suite=$(go test -vet=off -count=1 ./... 2>&1 | tail -1); echo "suite with patch: $suite"
 if [ -n "$demo" ]; then
